@@ -269,13 +269,55 @@ def block_obligations(blocks_mod, name):
     if key not in _BLOCK_CACHE:
         b = importlib.import_module(blocks_mod).BLOCKS[name]
         f = get_function(*b["function"])
-        extract = VB.extract_method_loop_body if b.get("method") else VB.extract_loop_body
-        kw = {k: b[k] for k in ("inner", "records") if k in b}
-        src, target, line = extract(f, b["loop"][0], b["loop"][1], name, b["params"], b["returns"], **kw)
+        if b.get("loop") is None:
+            src, target, line = VB.extract_method_body(f, name, b["params"], b["returns"])
+        else:
+            extract = VB.extract_method_loop_body if b.get("method") else VB.extract_loop_body
+            kw = {k: b[k] for k in ("inner", "records") if k in b}
+            src, target, line = extract(f, b["loop"][0], b["loop"][1], name, b["params"], b["returns"], **kw)
         eng = V.Engine(f, dict(b["contract"], name=name), b.get("callees", {}), {"_np": None}, source=src)
         obs = eng.generate()
         _BLOCK_CACHE[key] = (obs, sorted(set(eng.opaque_log)), src)
     return _BLOCK_CACHE[key]
+
+
+def ob_block_canary(blocks_mod, name, mutations):
+    """engine self-check for a block contract: each listed source mutation of the extracted block (a realistic slip) must make at least one obligation fail to
+    prove within a budget 10x what the unmutated obligations need; a surviving mutant means the contract or the engine cannot see that change -> checker failure."""
+    from vlib import smt
+
+    obs, opaque, src = block_obligations(blocks_mod, name)
+    b = importlib.import_module(blocks_mod).BLOCKS[name]
+    f = get_function(*b["function"])
+    survivors, killed = [], 0
+    for old, new in mutations:
+        if old not in src:
+            return {"status": "error", "backend": "z3", "detail": "canary pattern %r no longer occurs in block %s (update the canary list)" % (old, name)}
+        m = src.replace(old, new, 1)
+        try:
+            mobs = V.Engine(f, dict(b["contract"], name=name), b.get("callees", {}), {"_np": None}, source=m).generate()
+        except Exception:  # noqa
+            killed += 1
+            continue
+        dead = False
+        for ob in mobs:
+            if ob.expect_sat:
+                continue
+            s_ = z3.Solver()
+            for a in ob.assumptions:
+                s_.add(a)
+            s_.add(z3.Not(ob.goal))
+            r, _ = smt.z3_check(s_, 3.0)
+            if r != "unsat":
+                dead = True
+                break
+        if dead:
+            killed += 1
+        else:
+            survivors.append("%s -> %s" % (old, new))
+    if survivors:
+        return {"status": "error", "backend": "z3", "detail": "mutants of block %s survive its contract: %s" % (name, survivors)}
+    return proved("z3", "%d of %d source mutations of the block are rejected" % (killed, len(mutations)))
 
 
 def native_block(blocks_mod, name, helpers=()):
@@ -332,9 +374,14 @@ def add_block(run, blocks_mod, name):
     except (V.Unsupported, LookupError) as ex:
         run.add("%s::extractable" % name, "post", _block_not_extractable, name, str(ex))
         return
-    run.under_contract(f, qualname="%s.%s [block %s]" % (b["function"][0], b["function"][1], name),
-                       dropped="everything but the body of the loop `for ... in %s` #%d (block contract per iteration); expressions outside the V-engine subset evaluate to "
-                               "unconstrained values: %s; numba decorator; mathematical integers" % (b["loop"][0], b["loop"][1], opaque))
+    if b.get("loop") is None:
+        run.under_contract(f, qualname="%s.%s [whole method as function %s]" % (b["function"][0], b["function"][1], name),
+                           dropped="`self.x` read as parameter / local `x`; docstring; expressions outside the V-engine subset evaluate to unconstrained values: %s; "
+                                   "mathematical integers (no uint32 wrap-around)" % (opaque,))
+    else:
+        run.under_contract(f, qualname="%s.%s [block %s]" % (b["function"][0], b["function"][1], name),
+                           dropped="everything but the body of the loop `for ... in %s` #%d (block contract per iteration); expressions outside the V-engine subset evaluate to "
+                                   "unconstrained values: %s; numba decorator; mathematical integers" % (b["loop"][0], b["loop"][1], opaque))
     posts = [i for i, o in enumerate(obs) if not o.kind.startswith("cover")]
     if not [i for i in posts if obs[i].kind.startswith("post")]:
         run.add("%s::no-obligations" % name, "post", _zero_obligations)
